@@ -94,6 +94,8 @@ def h_read(ctx, vi, kind):
     bankno = cls.bank.address
     locs = [l.address for l in cls.locations]
     image = {l: ctx.fresh("m%d" % l, 0, 255) for l in locs}
+    for l in range(max(0, min(locs) - 2), min(254, max(locs) + 3) + 1):
+        image.setdefault(l, (l * 41 + 3) & 0xFF)          # the neighbouring locations exist and hold other bytes
     mode = ctx.fresh_choice("mode", 4)        # 0 none, 1 short bank, 2 hole, 3 fault
     last = ctx.fresh("last", 0, 254) if mode == 1 else 254
     hole = ctx.fresh("hole", 0, 254) if mode == 2 else None
